@@ -237,13 +237,20 @@ ITEM_CONTEXT_STATUSES = [st.RESUMING, st.PENDING, st.PAUSED, st.SUCCEEDED, st.FA
                          st.ABANDONED, st.CANCELED]
 
 
+# statuses in which a with-items task has, or may still get, items in flight and therefore must
+# digest item reports: not yet running (its first items were acknowledged as requested / scheduled /
+# delayed, or the very first report), running, being resumed; and the two "request in progress" ones
+STARTLIKE = [st.UNSET, st.REQUESTED, st.SCHEDULED, st.DELAYED, st.RESUMING]
+RUNLIKE = STARTLIKE + [st.RUNNING]
+
+
 def i_never_complete_while_active(v):
     return IMPLIES(AND(IN(v["new"], st.COMPLETED_STATUSES), NE(v["new"], v["cur"])),
                    NOT(v["other_active"]))
 
 
 def i_succeeds_iff_all_succeed(v):
-    live = IN(v["cur"], [st.RUNNING, st.PAUSING])
+    live = IN(v["cur"], RUNLIKE + [st.PAUSING, st.PAUSED])
     return AND(
         IMPLIES(AND(EQ(v["new"], st.SUCCEEDED), NE(v["cur"], st.SUCCEEDED)),
                 AND(EQ(v["ev"], st.SUCCEEDED), v["others_all_succeeded"])),
@@ -253,7 +260,7 @@ def i_succeeds_iff_all_succeed(v):
 
 def i_failed_if_any_failed_and_drained(v):
     drained = AND(NOT(v["other_active"]), NOT(v["other_paused"]), NOT(v["other_canceled"]))
-    return IMPLIES(AND(EQ(v["cur"], st.RUNNING), IN(v["ev"], [st.SUCCEEDED] + st.ABENDED_STATUSES), drained,
+    return IMPLIES(AND(IN(v["cur"], RUNLIKE), IN(v["ev"], [st.SUCCEEDED] + st.ABENDED_STATUSES), drained,
                        OR(IN(v["ev"], st.ABENDED_STATUSES), v["other_abended"])),
                    EQ(v["new"], st.FAILED))
 
@@ -267,11 +274,11 @@ def i_running_consistent(v):
 def i_item_completion_drains(v):
     """when the last active item reports a completion/pause, the task leaves the active statuses
     unless unfinished (not yet offered) items remain while it is still running"""
-    return IMPLIES(AND(IN(v["cur"], [st.RUNNING, st.PAUSING, st.CANCELING]),
+    return IMPLIES(AND(IN(v["cur"], RUNLIKE + [st.PAUSING, st.PAUSED, st.CANCELING]),
                        IN(v["ev"], st.COMPLETED_STATUSES + [st.PAUSED, st.PENDING]),
                        NOT(v["other_active"])),
                    OR(NOTIN(v["new"], st.ACTIVE_STATUSES),
-                      AND(EQ(v["cur"], st.RUNNING), EQ(v["new"], st.RUNNING), v["other_incomplete"],
+                      AND(IN(v["cur"], RUNLIKE), EQ(v["new"], st.RUNNING), v["other_incomplete"],
                           EQ(v["ev"], st.SUCCEEDED))))
 
 
@@ -295,11 +302,11 @@ ITEM_OBLIGATIONS = {
     "C12.tim.succeeds_iff_all_succeed": (["C12"], i_succeeds_iff_all_succeed,
         "task succeeds iff the reporting item and all other items succeeded"),
     "C12.tim.failed_if_any_failed_and_drained": (["C12", "C02"], i_failed_if_any_failed_and_drained,
-        "running task with a failed item and nothing active/paused/canceled left fails"),
+        "a task that is running - or has not reached running yet: its items were only acknowledged as requested / scheduled / delayed - with a failed item and nothing active/paused/canceled left fails"),
     "C03.tim.items_running_consistent": (["C03", "C12"], i_running_consistent,
         "task stays running after an item completes only if another item is active or unfinished"),
     "C03.tim.item_completion_drains": (["C03", "C09", "C10"], i_item_completion_drains,
-        "last active item reporting => the task leaves the active statuses (or unfinished items remain)"),
+        "last active item reporting => the task leaves the active statuses (or unfinished items remain to be offered), whether the task is running, not yet running (requested / scheduled / delayed / first report), resuming, pausing, paused or canceling"),
     "C10.tim.pause_cancel_rows": (["C10", "C09", "C12"], i_pause_cancel_rows,
         "item reports under cancel/pause never resume the task; drained canceling task is canceled"),
     "C15.tim.no_internal_error": (["C15", "C12"], i_no_internal_error,
@@ -407,16 +414,21 @@ class ProcessTaskItemEvent(Unit):
 # ================================================================================================
 # workflow events pushed to active tasks (pause / cancel of with-items tasks)
 # ================================================================================================
+# the statuses of a with-items task to which request_workflow_status pushes a request and in which the
+# task has not yet been told about a request: running, or active but not yet running
+WI_ACTIVE = [st.REQUESTED, st.SCHEDULED, st.DELAYED, st.RUNNING, st.RESUMING]
+
+
 def w_items_pause(v):
     """with-items task under a pause request: active items => pausing, none => paused"""
-    return IMPLIES(AND(EQ(v["cur"], st.RUNNING), IN(v["req"], st.PAUSE_STATUSES), v["has_items"],
+    return IMPLIES(AND(IN(v["cur"], WI_ACTIVE), IN(v["req"], st.PAUSE_STATUSES), v["has_items"],
                        v["any_incomplete"]),
                    AND(IMPLIES(v["any_active"], EQ(v["new"], st.PAUSING)),
                        IMPLIES(NOT(v["any_active"]), EQ(v["new"], st.PAUSED))))
 
 
 def w_items_cancel(v):
-    return IMPLIES(AND(EQ(v["cur"], st.RUNNING), IN(v["req"], st.CANCEL_STATUSES), v["has_items"],
+    return IMPLIES(AND(IN(v["cur"], WI_ACTIVE), IN(v["req"], st.CANCEL_STATUSES), v["has_items"],
                        v["any_incomplete"]),
                    AND(IMPLIES(v["any_active"], EQ(v["new"], st.CANCELING)),
                        IMPLIES(NOT(v["any_active"]), EQ(v["new"], st.CANCELED))))
@@ -447,9 +459,9 @@ def w_no_internal_error(v):
 
 WFEV_OBLIGATIONS = {
     "C09.tsm.items_pause": (["C09", "C12"], w_items_pause,
-        "with-items task under pause: pausing while items active, paused when none"),
+        "with-items task (running, or active but not yet running) under pause: pausing while items active, paused when none"),
     "C10.tsm.items_cancel": (["C10", "C12"], w_items_cancel,
-        "with-items task under cancel: canceling while items active, canceled when none"),
+        "with-items task (running, or active but not yet running) under cancel: canceling while items active, canceled when none"),
     "C10.tsm.retrying_cancel": (["C10", "C13"], w_retrying_cancel,
         "a retrying task is canceled by a cancel request"),
     "C04.tsm.wf_event_frame": (["C04", "C09", "C10"], w_plain_untouched,
